@@ -37,7 +37,12 @@ CONSTS = {"LINK_STORE_NODE_FORMAT": ("stub_format", "fmt"), "LINK_STORE_NODE_TAR
 
 COQT = {"N": "N", "oN": "option N", "bool": "bool", "bytes": "bytes", "obytes": "option bytes", "fvals": "list fval",
         "pos": "nat", "lnode": "py_lnode", "olnode": "option py_lnode", "listN": "list N",
-        "counter": "list (option N * N)", "oNset": "list (option N)", "tnode": "py_node"}
+        "counter": "list (option N * N)", "oNset": "list (option N)", "tnode": "py_node", "otnode": "option py_node",
+        "listB": "list bytes", "listT": "list py_node"}
+
+# attributes of the two node classes: name -> type; the setters are <prefix>_set_<attr>
+ATTRS = {"lnode": ("ln", {"block": "oN", "exists": "bool", "data": "fvals"}),
+         "tnode": ("nd", {"block": "oN", "exists": "bool", "tail": "bytes", "data": "fvals"})}
 
 PREAMBLE = r"""Record py_lnode := mk_ln { ln_block : option N; ln_exists : bool; ln_data : list fval }.
 Definition ln_set_block (v : option N) (n : py_lnode) := mk_ln v (ln_exists n) (ln_data n).
@@ -71,6 +76,10 @@ class Fn(object):
         self.decl = decl or {}
         self.loop_k = None
         self.has_sg = False
+        self.sum_depth = 0       # > 0: inside a loop of the "early return" encoding (R + state)
+        self.loops = []          # pack functions of the enclosing loops of that encoding
+        self.gen_sg = False      # a generator that also returns the storage
+        self.rcoq = None         # Coq type of the function's result (needed by that encoding)
 
     # ---------- helpers ----------
     def const(self, name):
@@ -81,9 +90,9 @@ class Fn(object):
     def coerce(self, a, ta, want):
         if ta == want:
             return a
-        if (ta, want) in (("N", "oN"), ("lnode", "olnode"), ("bytes", "obytes")):
+        if (ta, want) in (("N", "oN"), ("lnode", "olnode"), ("bytes", "obytes"), ("tnode", "otnode")):
             return "(Some %s)" % a
-        if ta == "none" and want in ("oN", "olnode", "obytes"):
+        if ta == "none" and want in ("oN", "olnode", "obytes", "otnode"):
             return "None"
         raise Unsupported("cannot use %s as %s in %s" % (ta, want, self.fn.name))
 
@@ -93,7 +102,7 @@ class Fn(object):
     def fail(self):
         if not self.opt:
             raise Unsupported("%s can raise but is declared total" % self.fn.name)
-        return "None"
+        return "(inl None)" if self.sum_depth else "None"
 
     def need(self, a, ta, want, k):
         """use a : ta where `want` is needed; an optional where a plain value is needed raises when it is None"""
@@ -110,6 +119,8 @@ class Fn(object):
                 return "%d%%N" % e.value, "N"
             if e.value is None:
                 return "None", "none"
+            if isinstance(e.value, bytes):
+                return ("[" + "; ".join("%d%%N" % c for c in e.value) + "]" if e.value else "(@nil N)"), "bytes"
         if isinstance(e, ast.Name):
             if e.id in env:
                 return "v_%s" % e.id, env[e.id]
@@ -119,15 +130,24 @@ class Fn(object):
             o = e.value.id
             ot = self.recv_type if o == "self" else env.get(o)
             ov = self.recv if o == "self" else "v_%s" % o
-            if ot == "lnode" and e.attr in ("block", "exists", "data"):
-                return "(ln_%s %s)" % (e.attr, ov), {"block": "oN", "exists": "bool", "data": "fvals"}[e.attr]
-            if ot == "tnode" and e.attr == "data":
-                return "(nd_data %s)" % ov, "fvals"
+            if ot in ATTRS and e.attr in ATTRS[ot][1]:
+                return "(%s_%s %s)" % (ATTRS[ot][0], e.attr, ov), ATTRS[ot][1][e.attr]
         if isinstance(e, ast.Subscript) and not isinstance(e.slice, ast.Slice):
             a, ta = self.expr(e.value, env)
             i, ti = self.expr(e.slice, env)
             if ta == "fvals" and ti == "pos":
                 return "(py_get_num %s %s)" % (i, a), "N"
+            if ta == "listB" and ti == "N":
+                # an index the loop keeps below len(..): out of range would be an IndexError
+                return "(nth (N.to_nat %s) %s (@nil N))" % (i, a), "bytes"
+        if isinstance(e, ast.BinOp) and isinstance(e.op, (ast.Add, ast.Sub)):
+            a, ta = self.expr(e.left, env)
+            b, tb = self.expr(e.right, env)
+            if ta == "bytes" and tb == "bytes" and isinstance(e.op, ast.Add):
+                return "(%s ++ %s)" % (a, b), "bytes"
+            if ta == "N" and tb == "N":
+                return "(%s %s %s)" % ("N.add" if isinstance(e.op, ast.Add) else "N.sub", a, b), "N"
+            raise Unsupported("arithmetic on %s, %s" % (ta, tb))
         if isinstance(e, ast.Compare) and len(e.ops) == 1:
             a, ta = self.expr(e.left, env)
             b, tb = self.expr(e.comparators[0], env)
@@ -137,7 +157,17 @@ class Fn(object):
                     if isinstance(e.ops[0], ast.Gt):
                         a, b = b, a
                     return op % (a, b), "bool"
+            if ta == "bytes" and tb == "bytes":
+                # Python compares bytes lexicographically by unsigned byte value: Bytes.lex
+                op = {ast.Lt: "(blt %s %s)", ast.Eq: "(beq %s %s)"}.get(type(e.ops[0]))
+                if op:
+                    return op % (a, b), "bool"
             raise Unsupported("comparison of %s and %s" % (ta, tb))
+        if isinstance(e, ast.BoolOp) and isinstance(e.op, ast.And):
+            parts = [self.expr(v, env) for v in e.values]
+            if any(t != "bool" for _, t in parts):
+                raise Unsupported("and of non-booleans")
+            return "(" + " && ".join(a for a, _ in parts) + ")", "bool"
         if isinstance(e, ast.UnaryOp) and isinstance(e.op, ast.Not):
             a, ta = self.expr(e.operand, env)
             if ta != "bool":
@@ -151,11 +181,16 @@ class Fn(object):
             f = e.func
             if isinstance(f, ast.Name) and f.id == "len" and len(e.args) == 1 and not e.keywords:
                 a, ta = self.expr(e.args[0], env)
-                if ta == "oNset":
+                if ta in ("oNset", "listB", "bytes"):
                     return "(N.of_nat (length %s))" % a, "N"
                 raise Unsupported("len of %s" % ta)
             if isinstance(f, ast.Name) and f.id == "list" and len(e.args) == 1 and not e.keywords:
                 return self.expr(e.args[0], env)
+            if isinstance(f, ast.Name) and f.id == "lru_iter" and len(e.args) == 1 and not e.keywords:
+                a, ta = self.expr(e.args[0], env)
+                if ta != "bytes":
+                    raise Unsupported("lru_iter of %s" % ta)
+                return "(GenHelpers2.py_lru_iter %s)" % a, "listB"
             if isinstance(f, ast.Attribute) and isinstance(f.value, ast.Name) and f.value.id == "struct" and not e.keywords:
                 c, t = self.const(e.args[0].id)
                 if t != "fmt":
@@ -217,19 +252,36 @@ class Fn(object):
             return self.fail()
         if isinstance(s, ast.Assert):
             return self.cond(s.test, env, lambda e2: self.block(rest, e2, k), lambda e2: self.fail())
+        if isinstance(s, ast.Break):
+            if not self.loops:
+                raise Unsupported("break outside a loop of the early-exit encoding")
+            return "(inr %s)" % self.loops[-1](env)
         if isinstance(s, ast.Return):
             if self.loop_k is not None:
                 raise Unsupported("return inside a loop")
+            if self.gen is not None:
+                # `return` in a generator ends it
+                if s.value is not None:
+                    raise Unsupported("return with a value in a generator")
+                t = self.some("(v__out, sg)" if self.gen_sg else "v__out")
+                return "(inl %s)" % t if self.sum_depth else t
             if s.value is None:
-                raise Unsupported("bare return")
-            # a return of an effectful call: `return self.add_links(...)` is not needed here
-            a, ta = self.expr(s.value, env)
-            return self.ret(self.coerce(a, ta, self.rtype), env)
+                if self.rtype not in ("oN", "olnode", "obytes", "otnode"):
+                    raise Unsupported("bare return")
+                a, ta = "None", "none"
+            elif isinstance(s.value, ast.Call) and isinstance(s.value.func, ast.Name) and s.value.func.id == "LRUTrieNode":
+                # return LRUTrieNode(self.storage, block=...): a new node object
+                t = "(let '(v__n, sg) := %s in %s)" % (self.tnode_ctor(s.value, env), self.ret("v__n", env))
+                return "(inl %s)" % t if self.sum_depth else t
+            else:
+                a, ta = self.expr(s.value, env)
+            t = self.ret(self.coerce(a, ta, self.rtype), env)
+            return "(inl %s)" % t if self.sum_depth else t
         if isinstance(s, ast.Expr) and isinstance(s.value, ast.Yield):
             if self.gen is None:
                 raise Unsupported("yield outside a generator")
             a, ta = self.expr(s.value.value, env)
-            if self.gen == "lnode" and ta == "lnode":
+            if self.gen in ("lnode", "tnode") and ta == self.gen:
                 item = a
             elif self.gen == "oN" and ta in ("oN", "N"):
                 item = self.coerce(a, ta, "oN")
@@ -278,6 +330,32 @@ class Fn(object):
         if isinstance(s, ast.Expr) and isinstance(s.value, ast.Call):
             return self.call_stmt(s.value, None, env, nxt)
         raise Unsupported("statement %s in %s" % (ast.dump(s)[:90], self.fn.name))
+
+    def tnode_ctor(self, c, env):
+        """LRUTrieNode(self.storage, stem=.., block=.., data=..), LRUTrie.node(**kwargs) or LRUTrie.root() as a call of py_node_init"""
+        f = c.func
+        if isinstance(f, ast.Attribute) and f.attr == "root":
+            if c.args or c.keywords:
+                raise Unsupported("root() arguments")
+            return "py_node_init sg None (Some py_first_data_block) None"
+        if isinstance(f, ast.Name):
+            if len(c.args) != 1 or ast.unparse(c.args[0]) != "self.storage":
+                raise Unsupported("LRUTrieNode(...) storage argument")
+        elif c.args:
+            raise Unsupported("node() positional arguments")
+        kws = dict((kw.arg, kw.value) for kw in c.keywords)
+        if set(kws) - {"stem", "block", "data"}:
+            raise Unsupported("node keywords %s" % sorted(kws))
+        out = []
+        for name, ty in (("stem", "obytes"), ("block", "oN"), ("data", "obytes")):
+            if name in kws:
+                if isinstance(kws[name], ast.Call) and not self.is_pure_call(kws[name], env):
+                    raise Unsupported("node(%s=<effectful call>)" % name)
+                a, ta = self.expr(kws[name], env)
+                out.append(self.coerce(a, ta, ty))
+            else:
+                out.append("None")
+        return "py_node_init sg %s" % " ".join(out)
 
     def ret(self, val, env):
         st = self.state_tuple(env)
@@ -333,18 +411,19 @@ class Fn(object):
             want = self.declared(n, ta)
             return "(let v_%s := %s in\n %s)" % (n, self.coerce(a, ta, want), nxt(dict(env, **{n: want})))
         # ---- self.attr / node.attr ----
-        if isinstance(tg, ast.Attribute) and isinstance(tg.value, ast.Name) and tg.value.id == "self" and self.recv_type == "lnode":
+        if isinstance(tg, ast.Attribute) and isinstance(tg.value, ast.Name) and tg.value.id == "self" and self.recv_type in ATTRS:
             if tg.attr == "storage":
                 if not (isinstance(v, ast.Name) and v.id == "storage"):
                     raise Unsupported("self.storage")
                 return nxt()
-            if tg.attr not in ("block", "exists", "data"):
+            pre, attrs = ATTRS[self.recv_type]
+            if tg.attr not in attrs:
                 raise Unsupported("attribute %s" % tg.attr)
-            want = {"block": "oN", "exists": "bool", "data": "fvals"}[tg.attr]
+            want = attrs[tg.attr]
             if isinstance(v, ast.Call) and not self.is_pure_call(v, env):
                 raise Unsupported("effectful call assigned to an attribute")
             a, ta = self.expr(v, env)
-            return "(let %s := ln_set_%s %s %s in\n %s)" % (self.recv, tg.attr, self.coerce(a, ta, want), self.recv, nxt())
+            return "(let %s := %s_set_%s %s %s in\n %s)" % (self.recv, pre, tg.attr, self.coerce(a, ta, want), self.recv, nxt())
         # ---- self.data[pos] = x  (LinkStoreNode / LRUTrieNode) ----
         if isinstance(tg, ast.Subscript) and isinstance(tg.value, ast.Attribute) and isinstance(tg.value.value, ast.Name) \
                 and tg.value.value.id == "self" and tg.value.attr == "data":
@@ -419,6 +498,12 @@ class Fn(object):
                 b = "None"
             return "(let '(v__n, sg) := py_lnode_init sg %s None in\n let v_%s := %s in\n %s)" % (
                 b, target, self.coerce("v__n", "lnode", want), nxt(dict(env, **{target: want})))
+        # ---- LRUTrie.node(**kwargs) / LRUTrie.root(): a new LRUTrieNode ----
+        if o == "self" and self.recv_type == "tstore" and f.attr in ("node", "root") and target:
+            want = self.declared(target, "tnode")
+            return "(let '(v__n, sg) := %s in\n let v_%s := %s in\n %s)" % (
+                self.tnode_ctor(c, env), target, self.coerce("v__n", "tnode", want), nxt(dict(env, **{target: want})))
+        # ---- generators of the trie, consumed by a for loop: handled in forloop ----
         # ---- methods of translated classes ----
         ot = self.recv_type if o == "self" else env.get(o)
         ov = self.recv if o == "self" else "v_%s" % o
@@ -429,6 +514,13 @@ class Fn(object):
         sig = self.tr.sigs.get((ot, name))
         if sig is None:
             raise Unsupported("method %s of %s" % (name, ot))
+        if sig["kind"] == "new":
+            # a method that returns a fresh node read from the storage (parent_node): the receiver is unchanged
+            if target is None or c.args or c.keywords:
+                raise Unsupported("call of %s" % name)
+            want = self.declared(target, "tnode")
+            return "(let '(v__n, sg) := %s %s sg in\n let v_%s := %s in\n %s)" % (
+                sig["coq"], ov, target, self.coerce("v__n", "tnode", want), nxt(dict(env, **{target: want})))
         if target is not None:
             raise Unsupported("value of the effectful method %s" % name)
         if ot == "tnode" and name == "write" and not c.args and not c.keywords:
@@ -482,14 +574,16 @@ class Fn(object):
                 names.add(n.target.value.id)
             if isinstance(n, ast.Call) and isinstance(n.func, ast.Attribute) and isinstance(n.func.value, ast.Name):
                 names.add(n.func.value.id)
-        names = sorted(x for x in names if x in env and env[x] in ("lnode", "olnode", "counter", "oNset", "bool", "N", "oN"))
+        names = sorted(x for x in names if x in env and env[x] in ("lnode", "olnode", "counter", "oNset", "bool", "N", "oN", "tnode", "otnode", "bytes"))
         return names
 
-    def loop_state(self, body, env):
-        names = self.mutated(body, env)
+    def loop_state(self, body, env, exclude=()):
+        names = [n for n in self.mutated(body, env) if n not in exclude]
         has_yield = any(isinstance(n, ast.Yield) for n in ast.walk(ast.Module(body=list(body), type_ignores=[])))
         vars_ = ["sg"] + ["v_%s" % n for n in names] + (["v__out"] if has_yield else [])
         types = ["py_pm"] + [COQT[env[n]] for n in names] + (["list (%s)" % COQT[self.gen]] if has_yield else [])
+        if not self.has_sg:
+            raise Unsupported("loop without a storage in %s" % self.fn.name)
         pat = "(" + ", ".join(vars_) + ")"
         ty = "(" + " * ".join(types) + ")"
 
@@ -502,9 +596,36 @@ class Fn(object):
             return "(" + ", ".join(out) + ")"
         return names, pat, ty, pack
 
+    def early_exit(self, body):
+        return any(isinstance(n, (ast.Return, ast.Break)) for n in ast.walk(ast.Module(body=list(body), type_ignores=[])))
+
+    def loop_sum(self, s, env, nxt):
+        """a while loop with `break` / `return` inside: the loop function returns (R + state): inl = the function returned"""
+        if self.rcoq is None:
+            raise Unsupported("early exit from a loop in %s" % self.fn.name)
+        names, pat, ty, pack = self.loop_state(s.body, env)
+        self.loops.append(pack)
+        self.sum_depth += 1
+        body = self.block(list(s.body), dict(env), lambda env2: "(py_loop fuel' %s)" % pack(env2))
+        self.sum_depth -= 1
+        self.loops.pop()
+        if isinstance(s.test, ast.Constant) and s.test.value is True:
+            step = body
+        else:
+            test, tt = self.expr(s.test, env)
+            if tt != "bool":
+                raise Unsupported("while test")
+            step = "(if %s\n then %s\n else inr st)" % (test, body)
+        loop = ("(fix py_loop (fuel : nat) (st : %s) {struct fuel} : (%s + %s) :=\n match fuel with\n | O => inr st\n | S fuel' =>\n"
+                " let '%s := st in\n %s\n end)" % (ty, self.rcoq, ty, pat, step))
+        prop = "(inl v__r)" if self.sum_depth else "v__r"
+        return "(match %s (S (length (pm_array sg))) %s with\n | inl v__r => %s\n | inr %s => %s end)" % (loop, pat, prop, pat, nxt())
+
     def loop(self, s, env, nxt):
         if s.orelse or self.loop_k is not None:
             raise Unsupported("while shape")
+        if self.early_exit(s.body) or (isinstance(s.test, ast.Constant) and s.test.value is True) or self.sum_depth:
+            return self.loop_sum(s, env, nxt)
         names, pat, ty, pack = self.loop_state(s.body, env)
         self.loop_k = True
         body = self.block(list(s.body), dict(env), lambda env2: "(py_loop fuel' %s)" % pack(env2))
@@ -527,6 +648,49 @@ class Fn(object):
                 and len(s.body) == 1 and isinstance(s.body[0], ast.Expr) and isinstance(s.body[0].value, ast.Yield) \
                 and ast.unparse(s.body[0].value.value) == ast.unparse(s.target) and self.gen == "pair":
             return "(let v__out := v__out ++ v_%s in\n %s)" % (s.iter.func.value.id, nxt())
+        # for i in range(n): with early exits
+        if isinstance(s.target, ast.Name) and isinstance(s.iter, ast.Call) and isinstance(s.iter.func, ast.Name) \
+                and s.iter.func.id == "range" and len(s.iter.args) == 1 and not s.iter.keywords:
+            if self.rcoq is None:
+                raise Unsupported("range loop in %s" % self.fn.name)
+            n, tn = self.expr(s.iter.args[0], env)
+            if tn != "N":
+                raise Unsupported("range of %s" % tn)
+            env1 = dict(env, **{s.target.id: "N"})
+            names, pat, ty, pack = self.loop_state(s.body, env1, exclude=(s.target.id,))
+            self.loops.append(None)            # a `break` directly in a for loop is not accepted
+            self.sum_depth += 1
+            body = self.block(list(s.body), env1, lambda env2: "(inr %s)" % pack(env2))
+            self.sum_depth -= 1
+            self.loops.pop()
+            prop = "(inl v__r)" if self.sum_depth else "v__r"
+            return ("(match fold_left (fun (acc : (%s + %s)) (v_%s : N) =>\n match acc with\n | inl v__r => inl v__r\n | inr %s => %s end)\n"
+                    " (py_range %s) (inr %s) with\n | inl v__r => %s\n | inr %s => %s end)"
+                    % (self.rcoq, ty, s.target.id, pat, body, n, pat, prop, pat, nxt()))
+        # for x in self.<generator>(args): a body without effects on the storage (the generator is run first)
+        if isinstance(s.target, ast.Name) and isinstance(s.iter, ast.Call) and isinstance(s.iter.func, ast.Attribute) \
+                and isinstance(s.iter.func.value, ast.Name) and s.iter.func.value.id == "self" \
+                and (self.recv_type, s.iter.func.attr) in self.tr.sigs and self.tr.sigs[(self.recv_type, s.iter.func.attr)]["kind"] == "gen":
+            sig = self.tr.sigs[(self.recv_type, s.iter.func.attr)]
+            for n in ast.walk(ast.Module(body=list(s.body), type_ignores=[])):
+                if isinstance(n, ast.Call) and not self.is_pure_call(n, dict(env, **{s.target.id: sig["item"]})):
+                    raise Unsupported("effectful call in the body of a loop over a generator")
+                if isinstance(n, (ast.Return, ast.Break, ast.Yield, ast.Raise)):
+                    raise Unsupported("exit from a loop over a generator")
+            args = self.args(s.iter, sig, env)
+            env1 = dict(env, **{s.target.id: sig["item"]})
+            names = [x for x in self.mutated(s.body, env1) if x != s.target.id]
+            vars_ = ["v_%s" % x for x in names]
+            pat = "(" + ", ".join(vars_) + ")" if len(vars_) != 1 else vars_[0]
+            ty = "(" + " * ".join(COQT[env[x]] for x in names) + ")" if len(names) != 1 else COQT[env[names[0]]]
+
+            def packg(e2):
+                out = [self.coerce("v_%s" % x, e2[x], env[x]) for x in names]
+                return "(" + ", ".join(out) + ")" if len(out) != 1 else out[0]
+            body = self.block(list(s.body), env1, packg)
+            return ("(match %s sg%s with\n | None => %s\n | Some (v__items, sg) =>\n (let %s%s := fold_left (fun (st : %s) (v_%s : %s) => let %s%s := st in\n %s) v__items %s in\n %s) end)"
+                    % (sig["coq"], "".join(" " + a for a in args), self.fail(), "'" if len(vars_) != 1 else "", pat, ty, s.target.id,
+                       COQT[sig["item"]], "'" if len(vars_) != 1 else "", pat, body, pat, nxt()))
         if not (isinstance(s.target, ast.Name) and isinstance(s.iter, ast.Name) and env.get(s.iter.id) == "listN"):
             raise Unsupported("for shape")
         env1 = dict(env, **{s.target.id: "N"})
